@@ -305,6 +305,9 @@ func c10Body(c *core.Ctx) {
 				spec2.Steps[0].Depends = append(append([]string(nil), spec2.Steps[0].Depends...), "zz")
 			}
 			spec2.DecSeed = r.Int63()
+			// the DAG's own preconditions may have become unmet since the recorded run
+			dagPrecondUnmet := r.Intn(100) < 12
+			spec2.DagPrecondBad = dagPrecondUnmet
 			tgt := copyStatus(t)
 			if tgt == nil {
 				continue
@@ -321,6 +324,22 @@ func c10Body(c *core.Ctx) {
 			c.Eval(1)
 			if out.Inconclusive != "" {
 				c.Inconclusive(fmt.Sprintf("case %d retry %d: %s", idx, ti, out.Inconclusive))
+				continue
+			}
+			if dagPrecondUnmet {
+				// C04's last clause holds for a retry as well: no step and no handler runs
+				c.Count("obligations", 1)
+				c.Count("retries_with_unmet_dag_precondition", 1)
+				var ran []string
+				for _, e := range out.Events {
+					if e.Kind == "RUN_ENTER" {
+						ran = append(ran, e.Step)
+					}
+				}
+				if len(ran) > 0 {
+					c.Violate(idx, "retry-ignores-dag-precondition", fmt.Sprintf("the DAG's own preconditions are unmet at the time of the retry, yet the retry executed %v", ran),
+						map[string]any{"case": spec, "retry_case": &spec2, "recorded": vecOf(t)})
+				}
 				continue
 			}
 			if out.SetupErr != "" {
